@@ -1,16 +1,238 @@
+import OmplModel.Proofs.SpaceDistLaws
 import OmplModel.Generated.Claims
-namespace OmplModel.C06
-open OmplModel.Generated
+/-!
+# C06 — state-space distances obey the metric laws each space claims
 
-/-- spaces whose claimed metric laws are proved (Props below) -/
+All theorems are about the executable model `OmplModel.SpaceDist.{dist, maxExtent, equalStates}`
+(lean/OmplModel/Model/SpaceDist.lean, tied to the C++ by the bit-exact correspondence run of checks/c06.py)
+instantiated at `ℝ` ([EX]: exact arithmetic; IEEE rounding is executed and compared, not verified).
+"In-bounds well-typed" is `inDom sp a` (Proofs/SpaceDistLaws.lean): the state has the shape of a state of
+`sp`, box values inside `[lo, hi]`, angles in `[-π, π)`, quaternions of norm 1, time inside its bounds.
+`Laws sp` = non-negative ∧ zero to itself ∧ positive between states that are not `equalStates` ∧ symmetric ∧
+triangle inequality; `ExtentLaw sp` = never larger than `maxExtent sp`.
+
+Findings on the unchanged code are stated as negations with kernel-checked witnesses (`…_fails`), next to the
+part that does hold (`…_partial` / `…_other_laws`).
+-/
+namespace OmplModel.C06
+open OmplModel OmplModel.SpaceDist OmplModel.Generated
+attribute [-instance] OmplModel.Num.instOfNat
+
+/-! ## leaves whose six laws hold -/
+
+/-- Rⁿ (Euclidean distance, any dimension, any box): all six laws. -/
+theorem rn_metric (lo hi : List ℝ) : Laws (.rv lo hi) ∧ ExtentLaw (.rv lo hi) :=
+  ⟨rv_laws lo hi, rv_extent lo hi⟩
+example : inDom (.rv [0, 0] [1, 2]) (.rv [1, 1]) := by simp [inDom, rvIn]
+
+/-- SO(2) (circle metric on [-π, π)): all six laws. -/
+theorem so2_metric : Laws (.so2 : Space ℝ) ∧ ExtentLaw (.so2 : Space ℝ) := ⟨so2_laws, so2_extent⟩
+example : inDom (.so2 : Space ℝ) (.so2 0) := by
+  simp only [inDom]; rw [so2InBounds_real]; constructor <;> linarith [Real.pi_pos]
+
+/-- time: the five laws, bounded or not; the extent law when bounded. -/
+theorem time_metric (b : Bool) (lo hi : ℝ) : Laws (.time b lo hi) ∧ ExtentLaw (.time true lo hi) :=
+  ⟨time_laws b lo hi, time_extent lo hi⟩
+example : inDom (.time true 0 1) (.time (1 / 2 : ℝ)) := by simp [inDom]; norm_num
+
+/-- an unbounded TimeStateSpace reports extent 1 while its distances are unbounded (finding F17). -/
+theorem time_unbounded_extent_fails : ¬ ExtentLaw (.time false 0 0 : Space ℝ) := by
+  intro h
+  have := h (.time 0) (.time 5) (by simp [inDom]) (by simp [inDom])
+  simp only [dist, maxExtent, timeDist_real, timeExtent_false_real] at this
+  norm_num at this
+
+/-- discrete: all six laws. -/
+theorem discrete_metric (lo hi : Int) : Laws (.disc lo hi : Space ℝ) ∧ ExtentLaw (.disc lo hi : Space ℝ) :=
+  ⟨disc_laws lo hi, disc_extent lo hi⟩
+example : inDom (.disc 0 5 : Space ℝ) (.disc 3) := by simp [inDom]
+
+/-- torus (L² product of two circle metrics): all six laws. -/
+theorem torus_metric (R r : ℝ) : Laws (.torus R r) ∧ ExtentLaw (.torus R r) := ⟨torus_laws R r, torus_extent R r⟩
+example : inDom (.torus 1 (1 / 2) : Space ℝ) (.ccons (.so2 0) (.ccons (.so2 0) .cnil)) := by
+  simp only [inDom]; rw [so2InBounds_real]; refine ⟨⟨?_, ?_⟩, ?_, ?_⟩ <;> linarith [Real.pi_pos]
+
+/-! ## SO(3) -/
+
+/-- the UNCLAMPED `arccos |⟨p,q⟩|` on unit quaternions is a metric on SO(3) (up to `q ~ -q`), bounded by π/2. -/
+theorem so3_unclamped_metric :
+    (∀ x1 y1 z1 w1 x2 y2 z2 w2 : ℝ, 0 ≤ so3DistUnclamped x1 y1 z1 w1 x2 y2 z2 w2) ∧
+    (∀ x y z w : ℝ, unitQ x y z w → so3DistUnclamped x y z w x y z w = 0) ∧
+    (∀ x1 y1 z1 w1 x2 y2 z2 w2 : ℝ, unitQ x1 y1 z1 w1 → unitQ x2 y2 z2 w2 →
+      (so3DistUnclamped x1 y1 z1 w1 x2 y2 z2 w2 = 0 ↔
+        (x2 = x1 ∧ y2 = y1 ∧ z2 = z1 ∧ w2 = w1) ∨ (x2 = -x1 ∧ y2 = -y1 ∧ z2 = -z1 ∧ w2 = -w1))) ∧
+    (∀ x1 y1 z1 w1 x2 y2 z2 w2 : ℝ,
+      so3DistUnclamped x1 y1 z1 w1 x2 y2 z2 w2 = so3DistUnclamped x2 y2 z2 w2 x1 y1 z1 w1) ∧
+    (∀ x1 y1 z1 w1 x2 y2 z2 w2 : ℝ, so3DistUnclamped x1 y1 z1 w1 x2 y2 z2 w2 ≤ Real.pi / 2) ∧
+    (∀ x1 y1 z1 w1 x2 y2 z2 w2 x3 y3 z3 w3 : ℝ, unitQ x1 y1 z1 w1 → unitQ x2 y2 z2 w2 → unitQ x3 y3 z3 w3 →
+      so3DistUnclamped x1 y1 z1 w1 x3 y3 z3 w3 ≤
+        so3DistUnclamped x1 y1 z1 w1 x2 y2 z2 w2 + so3DistUnclamped x2 y2 z2 w2 x3 y3 z3 w3) :=
+  ⟨so3U_nonneg, fun _ _ _ _ h => so3U_self h, fun _ _ _ _ _ _ _ _ h1 h2 => so3U_eq_zero_iff h1 h2, so3U_symm,
+    so3U_le_half_pi, fun _ _ _ _ _ _ _ _ _ _ _ _ h1 h2 h3 => so3U_triangle h1 h2 h3⟩
+example : unitQ 0 0 0 1 := by simp [unitQ]
+
+/-- F5: the code's clamped `arcLength` violates the triangle inequality on unit quaternions
+(rational witness: three rotations about one axis, 4e-5 rad apart). -/
+theorem so3_triangle_fails : ¬ (∀ a b c : St ℝ, inDom (.so3 : Space ℝ) a → inDom .so3 b → inDom .so3 c →
+    dist (.so3 : Space ℝ) a c ≤ dist .so3 a b + dist .so3 b c) := by
+  intro h
+  apply SpaceDist.so3_triangle_fails
+  intro x1 y1 z1 w1 x2 y2 z2 w2 x3 y3 z3 w3 h1 h2 h3
+  exact h (.so3 x1 y1 z1 w1) (.so3 x2 y2 z2 w2) (.so3 x3 y3 z3 w3) h1 h2 h3
+
+/-- … but never by more than `2·arccos(1 - 10⁻⁹)` (≈ 8.9e-5): the bound the check uses to recognise F5. -/
+theorem so3_triangle_partial (a b c : St ℝ) (ha : inDom (.so3 : Space ℝ) a) (hb : inDom (.so3 : Space ℝ) b)
+    (hc : inDom (.so3 : Space ℝ) c) :
+    dist (.so3 : Space ℝ) a c ≤ dist .so3 a b + dist .so3 b c + 2 * Real.arccos (1 - 1 / 10 ^ 9) := by
+  obtain ⟨x1, y1, z1, w1, rfl, h1⟩ := so3_inDom_shape ha
+  obtain ⟨x2, y2, z2, w2, rfl, h2⟩ := so3_inDom_shape hb
+  obtain ⟨x3, y3, z3, w3, rfl, h3⟩ := so3_inDom_shape hc
+  exact SpaceDist.so3_triangle_partial h1 h2 h3
+
+/-- the other five laws hold for the clamped function. -/
+theorem so3_other_laws :
+    (∀ a b, inDom (.so3 : Space ℝ) a → inDom .so3 b → 0 ≤ dist (.so3 : Space ℝ) a b) ∧
+    (∀ a, inDom (.so3 : Space ℝ) a → dist (.so3 : Space ℝ) a a = 0) ∧
+    (∀ a b, inDom (.so3 : Space ℝ) a → inDom .so3 b → equalStates (.so3 : Space ℝ) a b = false →
+      0 < dist (.so3 : Space ℝ) a b) ∧
+    (∀ a b, inDom (.so3 : Space ℝ) a → inDom .so3 b → dist (.so3 : Space ℝ) a b = dist .so3 b a) ∧
+    ExtentLaw (.so3 : Space ℝ) := by
+  refine ⟨?_, ?_, ?_, ?_, ?_⟩
+  · intro a b ha hb
+    obtain ⟨x1, y1, z1, w1, rfl, _⟩ := so3_inDom_shape ha
+    obtain ⟨x2, y2, z2, w2, rfl, _⟩ := so3_inDom_shape hb
+    exact so3Dist_nonneg _ _ _ _ _ _ _ _
+  · intro a ha
+    obtain ⟨x1, y1, z1, w1, rfl, h1⟩ := so3_inDom_shape ha
+    exact so3Dist_self h1
+  · intro a b ha hb hne
+    obtain ⟨x1, y1, z1, w1, rfl, _⟩ := so3_inDom_shape ha
+    obtain ⟨x2, y2, z2, w2, rfl, _⟩ := so3_inDom_shape hb
+    exact so3Dist_pos hne
+  · intro a b ha hb
+    obtain ⟨x1, y1, z1, w1, rfl, _⟩ := so3_inDom_shape ha
+    obtain ⟨x2, y2, z2, w2, rfl, _⟩ := so3_inDom_shape hb
+    exact so3Dist_symm _ _ _ _ _ _ _ _
+  · intro a b ha hb
+    obtain ⟨x1, y1, z1, w1, rfl, _⟩ := so3_inDom_shape ha
+    obtain ⟨x2, y2, z2, w2, rfl, _⟩ := so3_inDom_shape hb
+    exact so3Dist_le_extent _ _ _ _ _ _ _ _
+example : inDom (.so3 : Space ℝ) (.so3 0 0 0 1) := by simp [inDom, unitQ]
+
+/-! ## Möbius strip, Klein bottle, sphere (F6, F12) -/
+
+/-- F6: the Möbius distance (intervalMax = 1, the default) is not a metric:
+`d((-1.6,1),(1.6,1)) = 2π-1.2 > 1.6 + 1.6` via `(0,1)`. -/
+theorem mobius_triangle_fails : ¬ (∀ a b c : St ℝ, inDom (.mobius 1 1 : Space ℝ) a → inDom (.mobius 1 1 : Space ℝ) b →
+    inDom (.mobius 1 1 : Space ℝ) c →
+    dist (.mobius 1 1 : Space ℝ) a c ≤ dist (.mobius 1 1 : Space ℝ) a b + dist (.mobius 1 1 : Space ℝ) b c) := by
+  intro h
+  apply Seam.mobius_triangle_fails
+  intro u1 v1 u2 v2 u3 v3 h1 h2 h3 k1 k2 k3
+  exact h (.ccons (.so2 u1) (.ccons (.rv [v1]) .cnil)) (.ccons (.so2 u2) (.ccons (.rv [v2]) .cnil))
+    (.ccons (.so2 u3) (.ccons (.rv [v3]) .cnil)) ⟨h1, k1⟩ ⟨h2, k2⟩ ⟨h3, k3⟩
+
+/-- F6: the Klein-bottle distance is not a metric: `d((0.7,0.1),(2.4,0.1)) = 2π-1.9 > 0.85+0.85` via `(1.55,0.1)`. -/
+theorem klein_triangle_fails : ¬ (∀ a b c : St ℝ, inDom (.klein : Space ℝ) a → inDom (.klein : Space ℝ) b →
+    inDom (.klein : Space ℝ) c →
+    dist (.klein : Space ℝ) a c ≤ dist (.klein : Space ℝ) a b + dist (.klein : Space ℝ) b c) := by
+  intro h
+  apply Seam.klein_triangle_fails
+  intro u1 v1 u2 v2 u3 v3 h1 h2 h3 k1 k2 k3
+  exact h (.ccons (.rv [u1]) (.ccons (.so2 v1) .cnil)) (.ccons (.rv [u2]) (.ccons (.so2 v2) .cnil))
+    (.ccons (.rv [u3]) (.ccons (.so2 v3) .cnil)) ⟨h1, k1⟩ ⟨h2, k2⟩ ⟨h3, k3⟩
+
+/-- what does hold of the Möbius distance as coded: non-negative, zero to itself, symmetric, within the extent. -/
+theorem mobius_other_laws (imax : ℝ) (h0 : 0 ≤ imax) (u1 v1 u2 v2 : ℝ)
+    (hu1 : so2InBounds u1 = true) (hu2 : so2InBounds u2 = true) (hv1 : |v1| ≤ imax) (hv2 : |v2| ≤ imax) :
+    0 ≤ mobiusDist u1 v1 u2 v2 ∧ mobiusDist u1 v1 u1 v1 = 0 ∧ mobiusDist u1 v1 u2 v2 = mobiusDist u2 v2 u1 v1 ∧
+    mobiusDist u1 v1 u2 v2 ≤ maxExtent (.mobius imax 1 : Space ℝ) :=
+  ⟨Seam.mobiusDist_nonneg _ _ _ _ hu1 hu2, Seam.mobiusDist_self _ _, Seam.mobiusDist_symm _ _ _ _,
+    by rw [Seam.maxExtent_mobius]; exact Seam.mobiusDist_le_extent _ _ _ _ _ hv1 hv2 h0⟩
+
+/-- what does hold of the Klein-bottle distance as coded. -/
+theorem klein_other_laws (u1 v1 u2 v2 : ℝ) (hu1 : 0 ≤ u1 ∧ u1 ≤ Real.pi) (hu2 : 0 ≤ u2 ∧ u2 ≤ Real.pi)
+    (hv1 : so2InBounds v1 = true) (hv2 : so2InBounds v2 = true) :
+    0 ≤ kleinDist u1 v1 u2 v2 ∧ kleinDist u1 v1 u1 v1 = 0 ∧ kleinDist u1 v1 u2 v2 = kleinDist u2 v2 u1 v1 ∧
+    kleinDist u1 v1 u2 v2 ≤ maxExtent (.klein : Space ℝ) :=
+  ⟨Seam.kleinDist_nonneg _ _ _ _ hu1 hu2 hv1 hv2, Seam.kleinDist_self _ _, Seam.kleinDist_symm _ _ _ _ hv1 hv2,
+    by rw [Seam.maxExtent_klein]; exact Seam.kleinDist_le_extent _ _ _ _⟩
+
+/-- F12: on the sphere (real haversine formula) all states with φ = 0 are at distance 0 from each other although
+`equalStates` distinguishes them … -/
+theorem sphere_pole_distance_zero (r t1 t2 : ℝ) :
+    dist (.sphere r : Space ℝ) (.ccons (.so2 t1) (.ccons (.rv [0]) .cnil)) (.ccons (.so2 t2) (.ccons (.rv [0]) .cnil)) = 0 := by
+  simp only [dist]
+  exact Seam.sphere_pole_distance_zero r t1 t2
+
+/-- … and the distance between the poles, `π·r`, exceeds the reported extent `2π` as soon as `r > 2`. -/
+theorem sphere_extent_exceeded (r : ℝ) (hr : 2 < r) : ¬ ExtentLaw (.sphere r : Space ℝ) := by
+  intro h
+  have h0 : so2InBounds (0 : ℝ) = true := by rw [so2InBounds_real]; constructor <;> linarith [Real.pi_pos]
+  have := h (.ccons (.so2 0) (.ccons (.rv [0]) .cnil)) (.ccons (.so2 0) (.ccons (.rv [Real.pi]) .cnil))
+    ⟨h0, le_refl _, Real.pi_pos.le⟩ ⟨h0, Real.pi_pos.le, le_refl _⟩
+  rw [Seam.maxExtent_sphere] at this
+  simp only [dist] at this
+  exact absurd this (not_le.2 (Seam.sphere_extent_exceeded r hr))
+
+/-! ## compounds and wrappers -/
+
+/-- the distance of a compound is the weighted sum of its components' distances (head + rest). -/
+theorem compound_dist_is_weighted_sum (w : ℝ) (h t : Space ℝ) (ht : isCList t = true) (a1 a2 b1 b2 : St ℝ) :
+    dist (.ccons w h t) (.ccons a1 a2) (.ccons b1 b2) = w * dist h a1 b1 + dist t a2 b2 ∧
+    dist (.cnil : Space ℝ) .cnil .cnil = 0 :=
+  ⟨dist_ccons w h t ht a1 a2 b1 b2, by simp [dist]⟩
+example : isCList (.ccons (1 / 2) .so2 .cnil : Space ℝ) = true := rfl
+
+/-- the reported extent of a compound is the weighted sum of its components' extents (weights ≥ 2⁻⁵²). -/
+theorem compound_extent_is_weighted_sum (w : ℝ) (h t : Space ℝ) (ht : isCList t = true) (hw : (eps : ℝ) ≤ w) :
+    maxExtent (.ccons w h t) = w * maxExtent h + maxExtent t := maxExtent_ccons w h t ht hw
+
+/-- **compound_metric**: for ARBITRARILY NESTED weighted compounds (and wrappers anywhere in the tree): if every
+leaf satisfies the five laws and all weights are > 0, so does the whole space.  By structural induction on `Space`. -/
+theorem compound_metric (sp : Space ℝ) (h : AllLeaves (fun w => 0 < w) Laws sp) : Laws sp :=
+  compound_metric_aux sp h
+
+/-- the same for the extent law (weights ≥ 2⁻⁵², below which the code drops a component from the extent). -/
+theorem compound_extent (sp : Space ℝ) (h : AllLeaves (fun w => (eps : ℝ) ≤ w) ExtentLaw sp) : ExtentLaw sp :=
+  compound_extent_aux sp h
+
+/-- every space built from Rⁿ, SO(2), time, discrete and torus leaves by weighted compounds (weights > 0) and
+wrappers, nested to any depth, satisfies the five laws — e.g. SE(2) = [(1, R²), (½, SO(2))]. -/
+theorem shipped_metric (sp : Space ℝ) (h : AllLeaves (fun w => 0 < w) ProvedLeaf sp) : Laws sp :=
+  compound_metric sp (AllLeaves.mono provedLeaf_laws sp h)
+example : AllLeaves (fun w => 0 < w) ProvedLeaf
+    (.ccons 1 (.rv [0, 0] [1, 1]) (.ccons (1 / 2) .so2 .cnil) : Space ℝ) := by
+  simp [AllLeaves, ProvedLeaf, isCList]
+example : AllLeaves (fun w => 0 < w) ProvedLeaf
+    (.ccons 2 (.wrap (.ccons 1000 (.torus 1 (1 / 2)) (.ccons (1 / 1000) (.disc 0 3) .cnil))) (.ccons 1 (.time true 0 1) .cnil) : Space ℝ) := by
+  simp [AllLeaves, ProvedLeaf, isCList]
+
+/-- a wrapper space has exactly its inner space's laws. -/
+theorem wrapper_laws (s : Space ℝ) : (Laws (.wrap s) ↔ Laws s) ∧ (ExtentLaw (.wrap s) ↔ ExtentLaw s) :=
+  ⟨wrap_laws_iff s, wrap_extent_iff s⟩
+
+/-- a zero weight makes the compound a pseudo-metric by the user's choice: the component is simply ignored. -/
+theorem zero_weight_ignored (h t : Space ℝ) (ht : isCList t = true) (a1 a2 b1 b2 : St ℝ) :
+    dist (.ccons 0 h t) (.ccons a1 a2) (.ccons b1 b2) = dist t a2 b2 := by
+  rw [dist_ccons 0 h t ht]; simp
+
+/-! ## what the code claims (generated by running it) is covered -/
+
+/-- spaces whose claimed laws are proved above (`shipped_metric` and the leaf theorems) -/
 def provedMetric : List String :=
-  ["rv", "so2", "se2", "timeUnbounded", "timeBounded", "disc", "torus", "wrapRv", "wrapDisc", "compoundRvSo2", "compoundRvDisc"]
-/-- spaces that claim to be metric spaces but are not (kernel-checked witnesses below; KNOWN_FINDINGS F5, F6, F12) -/
+  ["rv", "so2", "se2", "timeUnbounded", "timeBounded", "disc", "torus", "wrapRv", "wrapDisc", "compoundRvSo2",
+   "compoundRvDisc"]
+/-- spaces that claim to be metric spaces but are not: kernel-checked witnesses above; KNOWN_FINDINGS F5, F6, F12 -/
 def knownNonMetric : List String := ["so3", "se3", "wrapSo3", "mobius", "klein", "sphere"]
-/-- claims whose proof belongs to another property (C14: Reeds-Shepp / symmetrised Dubins distances) — oracle-checked here -/
+/-- claims whose proof belongs to C14 (Reeds-Shepp, symmetrised Dubins): checked here by the oracle on the implementation -/
 def delegated : List String := ["reedsShepp", "dubinsSym"]
 
+/-- every shipped space that claims a law (metric space / symmetric distance) is in the proved list, the
+known-non-metric list or the delegated list — a space that starts claiming a law nobody proved breaks the build. -/
 theorem claims_covered :
     ∀ c ∈ claims, (c.metric = true ∨ c.symDist = true) →
       c.name ∈ provedMetric ∨ c.name ∈ knownNonMetric ∨ c.name ∈ delegated := by decide
+example : ∃ c ∈ claims, c.metric = true := by decide
+
 end OmplModel.C06
